@@ -455,7 +455,155 @@ def facts(src):
         ["C09"], "EventData.set / raise_exception: (method, fields stored BEFORE the statement that raises the event's flag, "
                  "what is executed AFTER it) - the future reports done only once its data and exception are in place",
         json_value=None if pub is None else [list(r) for r in pub]))
+    # ---- how stop() and enqueue() put into the queue ------------------------------------------------------------------
+    # The model's `enqPut` / `stopPut` steps are BLOCKING puts (enabled only while the queue is not full) that give up
+    # after the pool's `timeout`: `self._queue.put(x, True, self._timeout)`.  A non-blocking put (`put_nowait`,
+    # `put(x, False)`) raises Full at once on a bounded queue: stop() would then hand out fewer markers than workers.
+    # (a put is attributed by WHAT it puts - the stop marker `self._done_event`, possibly through a local alias, belongs to
+    # stop(), anything else is a task of enqueue() - so that a marker loop moved to a helper is still found)
+    puts = None
+    if methods.get("stop") is not None and methods.get("enqueue") is not None:
+        puts = []
+        for name, fn in methods.items():
+            for c in _queue_puts(fn):
+                item = c.args[0] if c.args else next((k.value for k in c.keywords if k.arg == "item"), None)
+                marker = item is not None and _operand(item, fn) == "_done_event"
+                puts.append(("stop" if marker else "enqueue",) + _put_mode(c))
+        puts = sorted(set(puts)) or None
+    out.append(Fact("poolQueuePuts", "List (String × Bool × Bool)",
+                    None if puts is None else "[" + ", ".join("(%s, %s, %s)" % (lean_str(m), str(b).lower(), str(t).lower())
+                                                              for m, b, t in puts) + "]",
+                    ALL3, "enqueue / stop: every put into the task queue as (method, blocking, timed by self._timeout)",
+                    json_value=puts))
+
+    # ---- a task's arguments travel untouched from enqueue() to the call ---------------------------------------------
+    fwd = None
+    fcls = src.klass("threadpool", "FutureResult")
+    fmethods = N.normalised_methods(fcls, ("__init__", "set_callback", "execute", "done", "result"),
+                                    module=src.module("threadpool"))
+    if methods.get("enqueue") is not None and methods.get("__run") is not None and fmethods.get("execute") is not None:
+        fwd = (_enqueue_signature_plain(methods["enqueue"]), _enqueue_queues_arguments(methods["enqueue"]),
+               _run_passes_arguments(methods["__run"]), _execute_calls_with_arguments(fmethods["execute"]))
+    out.append(Fact("poolTaskArgsForwarded", "Bool × Bool × Bool × Bool",
+                    None if fwd is None else "(%s)" % ", ".join(str(bool(b)).lower() for b in fwd),
+                    ["C09"],
+                    "a task's arguments: (enqueue(self, method, *args, **kwargs) has no other named parameter; it queues "
+                    "(method, args, kwargs, future) without rebinding / mutating / calling a method of args or kwargs; the "
+                    "worker unpacks the entry and calls future.execute(method, args, kwargs) with these three; execute calls "
+                    "method(*args, **kwargs), args / kwargs rebound only when they are None)", json_value=fwd))
     return out
+
+
+def _queue_puts(fn):
+    return [n for n in ast.walk(fn) if isinstance(n, ast.Call) and isinstance(n.func, ast.Attribute)
+            and n.func.attr in ("put", "put_nowait") and _self_attr(n.func.value) == "_queue"]
+
+
+def _put_mode(call):
+    """(blocking, timed by self._timeout) of a `self._queue.put(...)` / `put_nowait(...)` call."""
+    if call.func.attr == "put_nowait":
+        return (False, False)
+    kw = {k.arg: k.value for k in call.keywords}
+    block = call.args[1] if len(call.args) > 1 else kw.get("block")
+    tmo = call.args[2] if len(call.args) > 2 else kw.get("timeout")
+    blocking = block is None or (isinstance(block, ast.Constant) and block.value is True)
+    return (bool(blocking), _self_attr(tmo) == "_timeout" if tmo is not None else False)
+
+
+def _enqueue_signature_plain(fn):
+    a = fn.args
+    return (len(a.args) == 2 and not a.kwonlyargs and not a.defaults and not a.kw_defaults and not getattr(a, "posonlyargs", [])
+            and a.vararg is not None and a.kwarg is not None)
+
+
+def _name_uses(fn, name):
+    """(stores, receiver-of-attribute uses, subscript stores / deletions) of a local name in a function."""
+    stores = recv = mut = 0
+    for n in ast.walk(fn):
+        if isinstance(n, ast.Name) and n.id == name and isinstance(n.ctx, (ast.Store, ast.Del)):
+            stores += 1
+        if isinstance(n, ast.Attribute) and isinstance(n.value, ast.Name) and n.value.id == name:
+            recv += 1
+        if isinstance(n, ast.Subscript) and isinstance(n.value, ast.Name) and n.value.id == name \
+                and isinstance(n.ctx, (ast.Store, ast.Del)):
+            mut += 1
+    return stores, recv, mut
+
+
+def _single_tuple_binding(fn, name):
+    """The tuple a local is bound to, when it is assigned exactly once (`task = (method, args, kwargs, future)`)."""
+    found = [n for n in ast.walk(fn) if isinstance(n, ast.Assign) and len(n.targets) == 1
+             and isinstance(n.targets[0], ast.Name) and n.targets[0].id == name]
+    if len(found) == 1 and _name_uses(fn, name)[0] == 1 and isinstance(found[0].value, ast.Tuple):
+        return found[0].value
+    return None
+
+
+def _enqueue_queues_arguments(fn):
+    a = fn.args
+    if len(a.args) < 2 or a.vararg is None or a.kwarg is None:
+        return False
+    method, var, kw = a.args[1].arg, a.vararg.arg, a.kwarg.arg
+    # neither argument container is rebound, mutated, or asked anything (`kwargs.pop(...)`, `kwargs.get(...)`, `del kwargs[k]`)
+    for nm in (var, kw, method):
+        stores, recv, mut = _name_uses(fn, nm)
+        if stores or mut or (recv and nm != method):
+            return False
+    puts = _queue_puts(fn)
+    if len(puts) != 1 or not puts[0].args:
+        return False
+    item = puts[0].args[0]
+    if isinstance(item, ast.Name):
+        item = _single_tuple_binding(fn, item.id)
+    if not isinstance(item, ast.Tuple) or len(item.elts) != 4:
+        return False
+    names = [e.id if isinstance(e, ast.Name) else None for e in item.elts]
+    return names[:3] == [method, var, kw] and names[3] is not None
+    
+
+def _run_passes_arguments(fn):
+    unpacks = [n for n in ast.walk(fn) if isinstance(n, ast.Assign) and len(n.targets) == 1
+               and isinstance(n.targets[0], ast.Tuple) and len(n.targets[0].elts) == 4
+               and all(isinstance(e, ast.Name) for e in n.targets[0].elts)]
+    execs = [n for n in ast.walk(fn) if isinstance(n, ast.Call) and isinstance(n.func, ast.Attribute) and n.func.attr == "execute"]
+    if len(unpacks) != 1 or len(execs) != 1:
+        return False
+    m, a, k, f = [e.id for e in unpacks[0].targets[0].elts]
+    c = execs[0]
+    if not (isinstance(c.func.value, ast.Name) and c.func.value.id == f) or c.keywords or len(c.args) != 3:
+        return False
+    if [x.id if isinstance(x, ast.Name) else None for x in c.args] != [m, a, k]:
+        return False
+    # bound by the unpacking only
+    return all(_name_uses(fn, nm)[0] == 1 and _name_uses(fn, nm)[2] == 0 for nm in (m, a, k, f))
+
+
+def _execute_calls_with_arguments(fn):
+    a = fn.args
+    if len(a.args) != 4 or a.vararg is not None or a.kwarg is not None:
+        return False
+    method, args, kwargs = a.args[1].arg, a.args[2].arg, a.args[3].arg
+    calls = [n for n in ast.walk(fn) if isinstance(n, ast.Call) and isinstance(n.func, ast.Name) and n.func.id == method]
+    if len(calls) != 1:
+        return False
+    c = calls[0]
+    ok = (len(c.args) == 1 and isinstance(c.args[0], ast.Starred) and isinstance(c.args[0].value, ast.Name)
+          and c.args[0].value.id == args and len(c.keywords) == 1 and c.keywords[0].arg is None
+          and isinstance(c.keywords[0].value, ast.Name) and c.keywords[0].value.id == kwargs)
+    if not ok or _name_uses(fn, method)[0]:
+        return False
+    # `args` / `kwargs` are rebound only where they are None (the normalisation `if args is None: args = []`), never mutated
+    for nm in (args, kwargs):
+        if _name_uses(fn, nm)[1] or _name_uses(fn, nm)[2]:
+            return False
+    for it in N.walk(fn, ()):
+        if it.kind != "stmt":
+            continue
+        for nm in (args, kwargs):
+            if any(isinstance(x, ast.Name) and x.id == nm and isinstance(x.ctx, (ast.Store, ast.Del)) for x in ast.walk(it.node)):
+                if "%s is None" % nm not in it.keys():
+                    return False
+    return True
 
 
 def _stored_fields(st):
